@@ -147,7 +147,9 @@ func (nm LNumber) Format(f fmt.State, c rune) {
 	switch c {
 	case 'q', 's':
 		defaultFormat(nm.String(), f, c)
-	case 'b', 'c', 'd', 'o', 'x', 'X', 'U':
+	case 'c': // one byte as C printf does, not a UTF-8 encoded rune
+		defaultFormat(string([]byte{byte(int64(nm))}), f, 's')
+	case 'b', 'd', 'o', 'x', 'X', 'U':
 		defaultFormat(int64(nm), f, c)
 	case 'e', 'E', 'f', 'F', 'g', 'G':
 		defaultFormat(float64(nm), f, c)
